@@ -120,12 +120,51 @@ def string_cases(st):
         yield extra, (False, True)
 
 
+PLANTED = ["Label/a$b", "(Red, Label/a$b)", "Blue, (Red, (Label/ab$))", "Def/Vt/a$b", "Red, Def/Vt/ab$", "(Def/Vt/$ab, Blue)",
+           "(Def-expand/Vt/a$b, (Label/a$b, Blue))", "Red, (Def-expand/Vt/ab$, (Label/ab$, Blue)), Green",
+           "Re$d", "Blue, (Gre$en)", "Green, Label/xy$"]
+
+
+def planted_check(rec, st):
+    """A single illegal character is planted at known positions: every character issue must select exactly a planted '$'."""
+    from hed.models.hed_string import HedString
+    from hed.errors.error_reporter import ErrorHandler
+    from hed.errors.error_types import ErrorContext
+    from hed.models.definition_dict import DefinitionDict
+    from hed.validator import HedValidator
+    dd = DefinitionDict(["(Definition/Vt/#, (Label/#, Blue))"], st.schema)
+    validator = HedValidator(st.schema, def_dicts=dd)
+    for text in PLANTED:
+        hs = HedString(text, st.schema, dd)
+        eh = ErrorHandler()
+        eh.push_error_context(ErrorContext.HED_STRING, hs)
+        try:
+            issues = validator.validate(hs, allow_placeholders=False, error_handler=eh)
+        except Exception as e:
+            rec.violation("C12:planted:raises:" + type(e).__name__, text=text, error=repr(e)[:200])
+            continue
+        rec.n("evaluations")
+        chars = [i for i in issues if i["code"] == "CHARACTER_INVALID" and "char_index" in i]
+        if not chars:
+            rec.violation("C12:planted:no-character-issue-with-offsets", text=text, codes=[i["code"] for i in issues])
+        for i in chars:
+            sel = text[i["char_index"]:i["char_index_end"]]
+            rec.n("distinct_nontrivial")
+            if sel != "$":
+                kind = "def-value" if "def" in str(i.get("source_tag", "")).casefold() else "tag"
+                rec.violation(f"C12:planted:character-issue-points-at-another-character:{kind}", text=text, selected=sel,
+                              offsets=(i["char_index"], i["char_index_end"]), message=i["message"][:160])
+        rec.outcome("planted")
+
+
 def worker_strings(rec, shard, nshards, seed):
     from hed.models.hed_string import HedString
     from hed.errors.error_reporter import ErrorHandler
     from hed.errors.error_types import ErrorContext
     st = c01.Setup("HED8.3.0.xml")
     cases = list(dict.fromkeys(string_cases(st)))
+    if shard == 0:
+        planted_check(rec, st)
     for ci in core.shard_order(len(cases), shard, nshards, seed):
         text, phs = cases[ci]
         for ph in phs:
